@@ -211,6 +211,7 @@ def run_job(w, make):
         q.queue.clear()
     job = make(b)
     w.cmd_log = []
+    w.mut_log = []
     obs = {'crashed': False}
     try:
         b.put_job(job)
@@ -219,7 +220,9 @@ def run_job(w, make):
         obs['crashed'] = True
     finally:
         obs['cmds'] = w.cmd_log
+        obs['mut_ops'] = w.mut_log
         w.cmd_log = None
+        w.mut_log = None
     newly = list(q.queue)
     with q.mutex:
         q.queue.clear()
